@@ -271,9 +271,67 @@ type c02Probe struct {
 	class string
 }
 
+// c02BuiltinProbe follows the shape the built-in (and state tracking) handlers expect and fills the slots they index,
+// split and look up with hostile tokens: bare prefixes and modifiers, empty words, unknown names.
+func c02BuiltinProbe(r interface{ Intn(int) int }) c02Probe {
+	pick := func(xs ...string) string { return xs[r.Intn(len(xs))] }
+	words := func(pool []string, max int) string {
+		n := r.Intn(max + 1)
+		var w []string
+		for i := 0; i < n; i++ {
+			w = append(w, pool[r.Intn(len(pool))])
+		}
+		return strings.Join(w, pick(" ", " ", "  "))
+	}
+	who := pick("me", "*", "ghost", "")
+	ch := pick("#c", "#c", "#nochan", "&x", "", "me")
+	nk := pick("me", "ghost", "other", "nobody", "", "@", "+")
+	var raw, kind string
+	switch r.Intn(9) {
+	case 0, 1:
+		kind = "cap"
+		toks := []string{"-", "~", "=", "-~=", "~-", "sasl", "-sasl", "~sasl", "=sasl", "multi-prefix", "a=b", "=x", "sasl=PLAIN,EXTERNAL", "-multi-prefix", "--", "-="}
+		sub := pick("LS", "LS", "ACK", "ACK", "NAK", "NEW", "DEL", "LIST", "ls", "END", "")
+		cont := pick("", "", "* ")
+		raw = fmt.Sprintf(":srv CAP %s %s %s:%s", who, sub, cont, words(toks, 4))
+	case 2:
+		kind = "names"
+		toks := []string{"@", "+", "@+", "%", "~", "&", "!", "@@", "@me", "+ghost", "me", "other", "@nobody", "+", "@"}
+		raw = fmt.Sprintf(":srv 353 %s %s %s :%s", who, pick("=", "@", "*", ""), ch, words(toks, 5))
+	case 3:
+		kind = "who"
+		raw = fmt.Sprintf(":srv 352 %s %s %s %s %s %s %s :%s", who, ch, pick("id", ""), pick("host", ""), "srv", nk, pick("H", "G", "H*", "H@", "Hr*", "", "*"), pick("0 real", "", "3"))
+		if r.Intn(3) == 0 {
+			f := strings.Fields(raw)
+			raw = strings.Join(f[:min(len(f), 2+r.Intn(6))], " ")
+		}
+	case 4:
+		kind = "mode"
+		raw = fmt.Sprintf(":%s MODE %s %s %s", pick("srv", "ghost!g@h", "me!i@h"), pick(ch, nk), pick("+o", "-o", "+v", "+ov", "+l", "-l", "+k", "-k", "+kl", "+b", "+", "-", "+i", "+ooo", "o", "+lk-o", ""), words([]string{"me", "ghost", "nobody", "10", "-1", "x", "key", ""}, 3))
+	case 5:
+		kind = "chanreply"
+		raw = fmt.Sprintf(":srv %s %s %s %s", pick("324", "332", "311", "671"), who, pick(ch, nk), words([]string{"+nt", "+l", "+kl", "+k", "10", "key", ":topic text", "id", "host", "*", ":real name", ""}, 4))
+	case 6:
+		kind = "membership"
+		v := pick("JOIN", "PART", "KICK", "QUIT", "NICK", "TOPIC")
+		raw = fmt.Sprintf(":%s %s %s", pick("me!i@h", "ghost!g@h", "nobody!n@h", "srv", "!@", "other"), v, words([]string{ch, nk, "#c", ":reason text", "", ":"}, 3))
+	case 7:
+		kind = "registration"
+		raw = fmt.Sprintf(":srv %s %s", pick("001", "433", "410", "903", "904", "908", "AUTHENTICATE", "PING", "ERROR"), words([]string{who, nk, "+", ":", ":Welcome me!ident@host", ":in use", "PLAIN,EXTERNAL", "x", ""}, 4))
+	default:
+		kind = "ctcp"
+		raw = fmt.Sprintf(":%s %s %s :\x01%s", pick("x!y@z", "srv", "me!i@h"), pick("PRIVMSG", "NOTICE"), pick("me", "#c", ""), pick("VERSION\x01", "PING\x01", "PING", "\x01", "ACTION\x01", "VERSION extra\x01", " \x01", "USERINFO\x01"))
+	}
+	raw = strings.TrimRight(raw, " ")
+	return c02Probe{raw, "builtin-" + kind}
+}
+
 func c02MakeProbe(r interface{ Intn(int) int }, idx int) c02Probe {
 	if r.Intn(12) == 0 {
 		return c02CTCPProbe(r)
+	}
+	if r.Intn(5) == 0 {
+		return c02BuiltinProbe(r)
 	}
 	switch r.Intn(10) {
 	case 0: // raw odd bytes
